@@ -230,6 +230,16 @@ func (s *storage) SetRaw(ctx context.Context, keyValue ...*spacesyncproto.StoreK
 			keyValues[i].KeyPeerId = ""
 			continue
 		}
+		// the signing account must have been allowed to write at the acl record the value cites
+		identity, err := crypto.DecodeAccountAddress(keyValues[i].Identity)
+		if err != nil {
+			keyValues[i].KeyPeerId = ""
+			continue
+		}
+		if perms, err := state.PermissionsAtRecord(keyValues[i].AclId, identity); err != nil || !perms.CanWrite() {
+			keyValues[i].KeyPeerId = ""
+			continue
+		}
 	}
 	s.aclList.RUnlock()
 	keyValues = slice.DiscardFromSlice(keyValues, func(value innerstorage.KeyValue) bool {
